@@ -16,7 +16,7 @@ D_LIMITS = [None, 0.0, 1.0, -1.0, 0.1, -0.1, 5.0, 100.0, -273.15, 1e-300, -1e-30
             1e15, 3.0000000000000004, FMAX, -FMAX]
 I_LIMITS = [-(1 << 63), -(1 << 31), -16777216, -300, -5, -1, 0, 1, 2, 5, 255, 16777216,
             (1 << 53) + 1, (1 << 63) - 1, 1 << 64]
-S_SCALES = [0.1, 0.01, 1.0, 0.003, 2.5, 1e-6, 1e6, 0.5, 1 / 3]
+S_SCALES = [0.1, 0.01, 1.0, 0.003, 2.5, 1e-6, 1e6, 0.5, 1 / 3, 0.7, 0.03, 0.3]
 S_LIMITS = [-(1 << 40), -16777216, -300, -30, -3, -1, 0, 1, 3, 30, 333, 16777216, 1 << 40]
 NAMES = ['a', 'b', 'c', 'x_1', 'On', 'OFF', 'value', 'ü']
 ENUM_NAMES = ['off', 'on', 'idle', 'BUSY', 'err_1', 'x', 'Y2']
@@ -47,7 +47,13 @@ def int_spec(draw):
 
 @st.composite
 def scaled_spec(draw):
-    lo, hi = draw(_sorted2(S_LIMITS))
+    # grid indices: the fixed list of extremes, or any small index (index * scale / scale lands on either side of the
+    # integer in floating point, e.g. 3 * 0.1 / 0.1 > 3 but 0.3 / 0.1 < 3)
+    if draw(st.integers(0, 2)):
+        a, b = draw(st.integers(-1000, 1000)), draw(st.integers(-1000, 1000))
+        lo, hi = min(a, b), max(a, b)
+    else:
+        lo, hi = draw(_sorted2(S_LIMITS))
     return {'k': 'scaled', 'scale': draw(st.sampled_from(S_SCALES)), 'lo': lo, 'hi': hi}
 
 
